@@ -119,11 +119,26 @@ theorem legal_order_accepted (qs : List CQueue) (items : List RItem) (hl : Legal
   legalFrom_all_accepted qs items hl
 
 /-- **A key replayed as an ask and reported as bound later** (a shim that learns about the binding during the replay, or
-    places the pod itself afterwards) goes through the "ask → allocation" transition branch of UpdateAllocation
-    (`Core.recBind`: AllocateAsk, IncAllocatedResource without limit, forced Node.AddAllocation of the application's own
-    object, AddAllocation).  It keeps the books of any well-formed state balanced — no capacity or quota hypothesis. -/
-theorem bound_later_keeps_books (s : Core) (x : RAlloc) (hw : CoreWF s) (hb : Books s) : Books (s.recBind x).1 :=
-  books_recBind s x hw hb
+    places the pod itself afterwards), possibly WITH ANOTHER SIZE than the ask the core holds, goes through two blocks of
+    UpdateAllocation in one update (`Core.recBind`): the resource change of the pending ask (`Core.resizePending`: the
+    ask takes the new size, application and queue pending move by the delta, nothing is booked on a node — a pending ask
+    has none) and then the "ask → allocation" transition with the new size (`Core.bindHeld`: AllocateAsk,
+    IncAllocatedResource without limit, forced Node.AddAllocation of the application's own object, AddAllocation).
+    It keeps the books of any well-formed state balanced: in particular the node's allocated stays the sum of its
+    allocations (the new size once, not new size + delta).  No capacity or quota hypothesis; `NoSatResize`: no queue
+    pending total leaves the int64 range. -/
+theorem bound_later_keeps_books (s : Core) (x : RAlloc) (hw : CoreWF s) (hb : Books s) (hr : wf x.res = true)
+    (hnn : NonNeg x.res) (hsat : NoSatResize s x.res) : Books (s.recBind x).1 :=
+  books_recBind s x hw hb hr hnn hsat
+
+/-- … and the two blocks separately: the resize of a pending ask, the transition with the size the application holds. -/
+theorem pending_resize_keeps_books (s : Core) (a : CApp) (i : CItem) (res : Res) (hw : CoreWF s) (hb : Books s)
+    (ham : a ∈ s.apps) (hl : a.live = true) (him : i ∈ a.items) (hreq : i.inReq = true) (hnal : i.allocated = false)
+    (hr : wf res = true) : Books (s.resizePending a i res) :=
+  books_resizePending s a i res hw hb ham hl him hreq hnal hr
+
+theorem transition_keeps_books (s : Core) (x : RAlloc) (hw : CoreWF s) (hb : Books s) : Books (s.bindHeld x).1 :=
+  books_bindHeld s x hw hb
 
 /-- The order assumption is needed: an allocation replayed before its node and application is refused (and stays
     refused: nothing is booked for it). -/
@@ -238,6 +253,17 @@ example :
     viaAsk.apps.map (fun a => (a.state, a.allocated, a.pending)) = direct.apps.map (fun a => (a.state, a.allocated, a.pending)) ∧
     viaAsk.nodes.map (fun n => (n.allocated, n.available, n.allocs)) = direct.nodes.map (fun n => (n.allocated, n.available, n.allocs)) := by
   decide
+/-- ask first with size {cpu:1, mem:2}, bound later with size {cpu:3}: application, node and ask end exactly as in the
+    direct recovery of the {cpu:3} allocation (the node books {cpu:3} once) -/
+def exBound : RAlloc := { app := "app-2", key := "k1", node := "n1", res := [("cpu", 3)], ph := false, tg := "", reqNode := "" }
+def exViaAsk : Core :=
+  (((Core.fresh exTree).replay [exItems[0], exItems[1], .ask { exBound with node := "", res := [("cpu", 1), ("mem", 2)] }]).1.recPlaced exBound).1
+def exDirect : Core := ((Core.fresh exTree).replay [exItems[0], exItems[1], .alloc exBound]).1
+example : exViaAsk.apps.map (fun a => (a.state, a.allocated, a.pending)) = exDirect.apps.map (fun a => (a.state, a.allocated, a.pending)) := by decide
+example : exViaAsk.apps.map (fun a => a.items.map (fun i => (i.key, prune i.res, i.bound))) =
+    exDirect.apps.map (fun a => a.items.map (fun i => (i.key, prune i.res, i.bound))) := by decide
+example : exViaAsk.nodes.map (fun n => (n.allocated, n.available, n.allocs)) =
+    exDirect.nodes.map (fun n => (n.allocated, n.available, n.allocs)) := by decide
 /-- the same items, the ask before the allocation -/
 example : ((Core.fresh exTree).replay [exItems[0], exItems[1], exItems[3], exItems[2]]).2 = [exItems[0], exItems[1], exItems[3], exItems[2]] := by decide
 
